@@ -170,6 +170,10 @@ type c02Op struct {
 	Configs    []c02JarConfig `json:"configs,omitempty"`
 	Resolver   []c02KidKey    `json:"resolver,omitempty"`
 	JarDefects []string       `json:"jar_defects,omitempty"`
+	// reqobj: a fetch of one of the server's own request objects (RequestJWTByGet / RequestJWTByPost), see zz_verif_c02ro_test.go
+	ID           string  `json:"id,omitempty"`
+	WalletIssuer *string `json:"wallet_issuer,omitempty"`
+	WalletNonce  *string `json:"wallet_nonce,omitempty"`
 	// polload: the policy directory (policy/local.go), see zz_verif_c02pol_test.go
 	Dir     string        `json:"dir,omitempty"`
 	Entries []c02PolEntry `json:"entries,omitempty"`
@@ -216,6 +220,10 @@ type c02World struct {
 	jarCalls     []string
 	inJar        bool
 	authzEnabled bool
+	// reqobj leg
+	roReal        map[string]string // "ro:<nonce name>" -> real request id
+	lastSigned    map[string]interface{}
+	lastSignedKid string
 }
 
 // c02Ager ages every stored session entry by d (time translation); rewrite may adjust time stamps inside a value
@@ -493,7 +501,7 @@ func c02NewWorld(t *testing.T, cfg c02Op) *c02World {
 	}).AnyTimes()
 	authn.EXPECT().IAMClient().Return(ic).AnyTimes()
 	w.w = &Wrapper{auth: authn, subjectManager: sm, vcr: mvcr, storageEngine: engine, policyBackend: pdp,
-		jar: c02JarSpy{JAR: jar{auth: authn, keyResolver: c02KeyResolver{w}}, w: w}}
+		jar: c02JarSpy{JAR: jar{auth: authn, keyResolver: c02KeyResolver{w}, jwtSigner: c02JWTSigner{w}}, w: w}}
 	// the HTTP face: the node's error handler and the routes exactly as Wrapper.Routes registers them
 	w.echo = echo.New()
 	w.echo.HTTPErrorHandler = core.CreateHTTPErrorHandler()
@@ -1218,6 +1226,7 @@ func (w *c02World) postAuthResp(op *c02Op, body HandleAuthorizeResponseFormdataR
 		if pd, err := url.Parse(u.Query().Get("presentation_definition_uri")); err == nil {
 			owner = pd.Query().Get("wallet_owner_type")
 		}
+		w.noteRequestURI(u)
 		return fmt.Sprintf("200 next=%s nonce=%s", owner, w.nonceName(u.Query().Get("nonce")))
 	})
 }
@@ -1288,6 +1297,8 @@ func (w *c02World) exec(op *c02Op) string {
 		return w.execAuthz(op)
 	case "polload":
 		return w.execPolLoad(op)
+	case "reqobj":
+		return w.execReqObj(op)
 	}
 	return "bad-op:" + op.Op
 }
@@ -1328,6 +1339,7 @@ func (d c02DefSpec) json() string {
 }
 
 type c02Gen struct {
+	ros      []*c02GenRO // the request objects the legs of this world announced
 	rng      *rand.Rand
 	defs     []c02DefSpec
 	policy   []c02Policy
@@ -3009,6 +3021,8 @@ func TestVerifC02(t *testing.T) {
 				}
 			case r >= 98:
 				op = g.polLoad()
+			case r >= 93 && len(g.ros) > 0:
+				op = g.roFetch()
 			default:
 				op = c02Op{Op: "probe", Store: "s2snonce", Key: "n0"}
 				if len(g.usedNonces) > 0 {
@@ -3095,6 +3109,7 @@ func TestVerifC02(t *testing.T) {
 					g.accepted = append(g.accepted, op)
 				}
 			}
+			g.noteROs(&op, line)
 			out.emit(&op, line)
 		}
 		w.ctrl.Finish()
